@@ -29,6 +29,9 @@ def gen_case(rng, big=False):
         po = sum(1 for s in seqs for c in s if c in gen.AA_ONLY)
         if po * 3 < tot + 3:
             seqs = [s + "".join(rng.choice(gen.AA_ONLY) for _ in range(len(s) // 2 + 1)) for s in seqs]
+    if rng.random() < 0.12 and len(seqs) >= 3:
+        # a record without residues (dropped by kalign) somewhere in the input
+        seqs.insert(rng.randint(0, len(seqs) - 1), "")
     style = rng.choice(["s", "rand", "long", "num", "prefix"]) if n <= 150 else rng.choice(["s", "num", "rand"])
     names = gen.names(rng, len(seqs), style)
     return kind, list(zip(names, seqs))
@@ -58,12 +61,14 @@ def run_case(ck, paths, idx, big):
         if res.proc.rc == 1:
             ck.violation("rejected-valid-input", res.stderr[-300:], dict(ctx, input=recs))
         return
-    errs = fmt.check_alignment(recs, base, "base")
+    errs = fmt.check_alignment([r for r in recs if r[1]], base, "base")
     if errs:
         ck.violation("base-output-invalid", errs[0], dict(ctx, input=recs))
         return
     bcols = fmt.columns(base)
-    lens = [len(s) for _, s in recs]
+    lens = [len(s) for _, s in recs if s]
+    if any(not s for _, s in recs):
+        ck.count("inputs_with_an_empty_record")
     has_ties = len(set(lens)) < len(lens)
     nperm = 2 if big else rng.choice([2, 3, 4])
     use_lib_multi = rng.random() < 0.25 and not big
@@ -84,7 +89,7 @@ def run_case(ck, paths, idx, big):
             if res2.proc.rc == 1:
                 ck.violation("permutation-rejected", "a permutation of an accepted input was rejected: %s" % res2.stderr[-200:], dict(ctx, input=perm))
             continue
-        errs = fmt.check_alignment(perm, rows, "permuted")
+        errs = fmt.check_alignment([r for r in perm if r[1]], rows, "permuted")
         if errs:
             ck.violation("permuted-output-invalid:" + errs[0].split(":")[1].strip().split(" ")[0], errs[0], dict(ctx, input=perm))
             continue
